@@ -107,7 +107,9 @@ CLAIMED["C06"] = {
     "design": "DESIGN.md §5 C06",
 }
 CLAIMED["C12"] = {
-    "text": "Partial by nature (CPU time of CPython's re and of Marko's parser is runtime behaviour). Proved in Coq: the regex matcher "
+    "text": "Partial by nature (CPU time of CPython's re and of Marko's parser is runtime behaviour). Proved in Coq: the model of the "
+            "whole fill_markdown (parser = arbitrary function returning documents whose tables have a header row) never raises, for every "
+            "text and option set; the regex matcher "
             "of the model never exhausts its fuel for any pattern and input; smart_quotes and ellipses never raise; every rendered "
             "block and document is empty or ends in a newline for every tree and every wrapper; the fence of a code block is longer "
             "than any fence-like run in its content. The whole fill_markdown pipeline (renderer, transforms, wrappers, with Marko's "
@@ -134,7 +136,7 @@ CLAIMED["C01"] = {
     "design": "DESIGN.md §5 C01",
 }
 CLAIMED["C02"] = {
-    "text": "Coq theorems at the paragraph level, for every text, positive width and pair of columns: re-reading the wrapped lines gives "
+    "text": "Coq theorems at the paragraph level, for every text, width (wrapping or not) and pair of columns: re-reading the wrapped lines gives "
             "the source's word sequence, the wrapped form is a function of the word sequence, hence wrapping the wrapped lines again "
             "changes nothing (plain mode, whitespace splitter); unclosed frontmatter is a fixpoint of the whole formatter (C07). The "
             "document-level claim is decided by two-pass runs: the extracted pipeline model and the implementation are compared on the "
@@ -146,7 +148,7 @@ CLAIMED["C02"] = {
 }
 CLAIMED["C03"] = {
     "text": "Coq theorems at the paragraph level: the wrapped form depends on the text only through its whitespace-normal form (any "
-            "splitter, any width, both modes) and, with the whitespace splitter and positive width, only through its word sequence; "
+            "splitter, any width, both modes) and, with the whitespace splitter, for every width only through its word sequence; "
             "wrapping with any other width and columns first and then with the target ones equals wrapping the source with the target "
             "ones. Document level: pairs of layouts of one generated content (separate content / layout random streams; soft breaks "
             "moved, spaces multiplied, lazy and indented continuation, blank-line counts, hard-break spelling, CRLF, uniform indentation) "
